@@ -219,6 +219,20 @@ type traceResult struct {
 	vec trace.Vector
 	str []trace.StrEvent
 	dur []int64 // durations handed to time.Sleep / the timer constructors during the call, sorted
+	blk []byte  // execution counters of every basic-block edge of the instrumented packages (8 bit, wrapping 255 -> 1)
+}
+
+// diffBlocks lists the first indexes at which two block profiles differ.
+func diffBlocks(a, b []byte) (n int, first []int) {
+	for i := range a {
+		if i < len(b) && a[i] != b[i] {
+			n++
+			if len(first) < 8 {
+				first = append(first, i)
+			}
+		}
+	}
+	return
 }
 
 func sameDur(a, b []int64) bool {
@@ -257,14 +271,17 @@ func traced(f func()) traceResult {
 	cmpEvents = cmpEvents[:0]
 	cmpOn = true
 	durStart()
+	blk := make([]byte, trace.CountersLen())
+	trace.ZeroCounters()
 	trace.Start()
 	f()
 	v, s, _ := trace.Stop()
+	trace.SnapshotCounters(blk)
 	d := durStop()
 	cmpOn = false
 	s = append(s, cmpEvents...)
 	sort.Slice(d, func(i, j int) bool { return d[i] < d[j] })
-	return traceResult{v, s, d}
+	return traceResult{v, s, d, blk}
 }
 
 // tainted reports a string-comparison operand that carries the expected code, an
@@ -365,10 +382,57 @@ func checkC09(c c09Case) verdict {
 			if !sameDur(tr.dur, base.dur) && durationsDependOnCode(c, code, string(un)) {
 				return bad(true, labels, "%s: the time the call spends asleep depends on how many leading characters are correct: with %d correct (submitted %s, expected %s) the durations handed to time.Sleep / timers are %v ns, with none correct %v ns — stable for each code over six repetitions", c.Entry, k, code, e, tr.dur, base.dur)
 			}
+			if !bytes.Equal(tr.blk, base.blk) && blocksDependOnCode(c, code, string(un)) {
+				n, first := diffBlocks(tr.blk, base.blk)
+				return bad(true, labels, "%s: the work done for a rejection depends on how many leading characters are correct: with %d correct (submitted %s, expected %s) %d basic blocks of the instrumented code are executed a different number of times than with none correct (block counters %v ...), in six paired repetitions", c.Entry, k, code, e, n, first)
+			}
 			if tr.vec != base.vec && consistentlyDiffers(c, code, string(un)) {
 				return bad(true, labels, "%s: the comparison trace depends on how many leading characters are correct: %d correct (submitted %s, expected %s) gives events %v, none correct gives %v (kinds %v)", c.Entry, k, code, e, tr.vec, base.vec, trace.Kinds)
 			}
 		}
+	}
+	// sequences: the codes of this and the next one or two counters / steps written one after the other (2d or 3d
+	// characters; RFC 4226 resynchronisation sends such a sequence). On a tree that knows nothing of sequences these are
+	// refused for their length at once; on one that accepts them, checking value by value and stopping at the first wrong
+	// one is an early exit in units of a whole code. The trace must not depend on how many leading characters are right.
+	if !strings.Contains(c.Entry, "ocra") {
+		step := uint64(1)
+		if strings.Contains(c.Entry, "totp") {
+			step = uint64(c.Period)
+		}
+		c1, c2 := c, c
+		c1.N, c2.N = c.N+step, c.N+2*step
+		e1, _, _ := c1.expected()
+		e2, _, _ := c2.expected()
+		for _, full := range []string{e + e1, e + e1 + e2} {
+			mk := func(k int) string { // k leading characters right, all others wrong
+				b := []byte(full)
+				for i := k; i < len(b); i++ {
+					b[i] = '0' + (b[i]-'0'+1+byte((c.Salt>>uint(i%40))%8))%10
+				}
+				return string(b)
+			}
+			d := len(e)
+			baseS := mk(0)
+			bcall := c.prepare(baseS)
+			sbase := traced(func() { bcall() })
+			for _, k := range []int{d - 1, d, d + 1, 2*d - 1, 2 * d, len(full) - 1} {
+				if k >= len(full) {
+					continue
+				}
+				code := mk(k)
+				call := c.prepare(code)
+				tr := traced(func() { call() })
+				if !bytes.Equal(tr.blk, sbase.blk) && blocksDependOnCode(c, code, baseS) {
+					n, first := diffBlocks(tr.blk, sbase.blk)
+					return bad(true, labels, "%s: a sequence of %d codes (%d characters) is rejected with work that depends on how many leading characters are correct: with %d correct (submitted %s, the genuine sequence is %s) %d basic blocks run a different number of times than with none correct (block counters %v ...), in six paired repetitions", c.Entry, len(full)/d, len(full), k, code, full, n, first)
+				}
+				if tr.vec != sbase.vec && consistentlyDiffers(c, code, baseS) {
+					return bad(true, labels, "%s: a sequence of %d codes is rejected with a comparison trace that depends on how many leading characters are correct: %d correct gives events %v, none correct gives %v", c.Entry, len(full)/d, k, tr.vec, sbase.vec)
+				}
+			}
+		}
+		labels = append(labels, "sequences")
 	}
 	return ok(true, labels...)
 }
@@ -383,6 +447,21 @@ func durationsDependOnCode(c c09Case, code, baseCode string) bool {
 		t := traced(func() { cc() })
 		b2 := traced(func() { bc() })
 		if !sameDur(b1.dur, b2.dur) || sameDur(t.dur, b1.dur) {
+			return false
+		}
+	}
+	return true
+}
+
+// blocksDependOnCode re-measures six times, like durationsDependOnCode: the reference code's block profile must be the
+// same in two consecutive runs (pool and allocator state settle) while the code under test differs from it every time.
+func blocksDependOnCode(c c09Case, code, baseCode string) bool {
+	bc, cc := c.prepare(baseCode), c.prepare(code)
+	for i := 0; i < 6; i++ {
+		b1 := traced(func() { bc() })
+		t := traced(func() { cc() })
+		b2 := traced(func() { bc() })
+		if !bytes.Equal(b1.blk, b2.blk) || bytes.Equal(t.blk, b1.blk) {
 			return false
 		}
 	}
@@ -404,7 +483,7 @@ func consistentlyDiffers(c c09Case, code, baseCode string) bool {
 }
 
 var c09Main = newPart("C09", "traces",
-	"rapid: validation entry points {ValidateHOTP, ValidateTOTP, ValidateOCRA, ValidateOTPWasm (js/wasm file compiled natively through an overlay), the binding's own validateHOTP / validateTOTP (wasm/main.go compiled natively against a stand-in syscall/js and called through the functions it registers), REST /hotp/validate, /totp/validate, /ocra/validate driven in-process} x keys x counters/instants x digits 6..10 (OCRA: registered suites) x hashes x windows 0..3; for each, the family of wrong codes sharing exactly k = 0..d-1 leading characters with the expected code E (two tails each), traced with the compiler's libFuzzer comparison instrumentation of the library, the REST layer, bytes, strings, slices, reflect, crypto/subtle and crypto/internal/fips140/subtle; oracles: (A) no string-comparison event has an operand equal to E, to any acceptable code of the window, to a >=3-character fragment of one that the submitted code does not contain, or to the HMAC digest (raw/hex); (B) the vector of event counts per kind is identical for all k and equal to that of a wrong code with no matching position; (C) the durations handed to time.Sleep and to the timer constructors during the call (hook added to package time by the build overlay) are the same for all k, judged only when the reference code's durations are stable over repeated runs; a planted ==, a planted early-exit byte loop, a planted 3 us sleep and a planted 7 us timer must be seen before every run; non-trivial = every case (each has k >= 1 members)",
+	"rapid: validation entry points {ValidateHOTP, ValidateTOTP, ValidateOCRA, ValidateOTPWasm (js/wasm file compiled natively through an overlay), the binding's own validateHOTP / validateTOTP (wasm/main.go compiled natively against a stand-in syscall/js and called through the functions it registers), REST /hotp/validate, /totp/validate, /ocra/validate driven in-process} x keys x counters/instants x digits 6..10 (OCRA: registered suites) x hashes x windows 0..3; for each, the family of wrong codes sharing exactly k = 0..d-1 leading characters with the expected code E (two tails each), traced with the compiler's libFuzzer comparison instrumentation of the library, the REST layer, bytes, strings, slices, reflect, crypto/subtle and crypto/internal/fips140/subtle; oracles: (A) no string-comparison event has an operand equal to E, to any acceptable code of the window, to a >=3-character fragment of one that the submitted code does not contain, or to the HMAC digest (raw/hex); (B) the vector of event counts per kind is identical for all k and equal to that of a wrong code with no matching position; (D) the execution counters of every basic-block edge of the instrumented packages (the compiler's 8-bit coverage counters, zeroed before and read after the call) are identical for all k, judged like (C) only when the reference code's profile is reproducible; (C) the durations handed to time.Sleep and to the timer constructors during the call (hook added to package time by the build overlay) are the same for all k, judged only when the reference code's durations are stable over repeated runs; a planted ==, a planted early-exit byte loop, a planted 3 us sleep and a planted 7 us timer must be seen before every run; non-trivial = every case (each has k >= 1 members)",
 	checkC09)
 
 func genC09(t *rapid.T) c09Case {
@@ -474,8 +553,11 @@ func canaryCheck() error {
 	if tainted(base.str, "1111111111", []string{e}, nil) == "" {
 		return fmt.Errorf("a planted == on the expected code produced no string-comparison event (events %v)", base.vec)
 	}
-	l0 := traced(func() { canary.Loop([]byte("1111111111"), []byte(e)) })
-	l5 := traced(func() { canary.Loop([]byte("7391611111"), []byte(e)) })
+	var lps []traceResult
+	for _, in := range []string{"2222222222", "1111111111", "7391611111"} {
+		lps = append(lps, traced(func() { canary.Loop([]byte(in), []byte(e)) }))
+	}
+	l0, l5 := lps[1], lps[2]
 	if l0.vec == l5.vec {
 		return fmt.Errorf("a planted early-exit byte loop produced identical traces for 0 and 5 matching characters (%v)", l0.vec)
 	}
@@ -483,10 +565,31 @@ func canaryCheck() error {
 	if tainted(o0.str, "1111111111", []string{e}, nil) == "" {
 		return fmt.Errorf("a planted strings.Compare on the expected code was not observed")
 	}
-	c0 := traced(func() { canary.CT([]byte("1111111111"), []byte(e)) })
-	c5 := traced(func() { canary.CT([]byte("7391611111"), []byte(e)) })
+	// one closure for all inputs: the compiler inlines the comparison into each function literal, and every copy has block
+	// counters of its own
+	// (and it inlines a small helper closure at each call site, copying the literal inside: hence the loop — one call site)
+	var cts []traceResult
+	for _, in := range []string{"2222222222", "1111111111", "7391611111"} { // the first is a warm-up
+		cts = append(cts, traced(func() { canary.CT([]byte(in), []byte(e)) }))
+	}
+	c0, c5 := cts[1], cts[2]
 	if c0.vec != c5.vec || tainted(c0.str, "1111111111", []string{e}, nil) != "" {
 		return fmt.Errorf("the constant-time comparison trips the oracles (%v vs %v)", c0.vec, c5.vec)
+	}
+	// block counters: present, different for the planted early-exit loop, equal for the constant-time comparison
+	if trace.CountersLen() == 0 {
+		return fmt.Errorf("the runtime announced no block-counter section")
+	}
+	if bytes.Equal(l0.blk, l5.blk) {
+		return fmt.Errorf("a planted early-exit byte loop produced identical block profiles for 0 and 5 matching characters")
+	}
+	if !bytes.Equal(c0.blk, c5.blk) {
+		n, first := diffBlocks(c0.blk, c5.blk)
+		var vals []string
+		for _, k := range first {
+			vals = append(vals, fmt.Sprintf("%d:%d/%d", k, c0.blk[k], c5.blk[k]))
+		}
+		return fmt.Errorf("the constant-time comparison produces different block profiles (%d blocks, %v)", n, vals)
 	}
 	if sleepHookAvailable {
 		// a planted sleep and a planted timer must be observed with their durations, and only those
